@@ -144,7 +144,7 @@ func (state *RuntimeState) getAuthInfoFromJWT(serializedToken,
 	return rvalue, nil
 }
 
-func (state *RuntimeState) updateAuthJWTWithNewAuthLevel(intoken string, newAuthLevel int) (string, error) {
+func (state *RuntimeState) updateAuthJWTWithNewAuthLevel(intoken string, username string, newAuthLevel int) (string, error) {
 	signerOptions := (&jose.SignerOptions{}).WithType("JWT")
 	sigAlgo, err := publicToPreferedJoseSigAlgo(state.Signer.Public())
 	if err != nil {
@@ -174,6 +174,9 @@ func (state *RuntimeState) updateAuthJWTWithNewAuthLevel(intoken string, newAuth
 		parsedJWT.NotBefore > time.Now().Unix() {
 		err = errors.New("invalid JWT values")
 		return "", err
+	}
+	if parsedJWT.Subject != username {
+		return "", errors.New("auth token does not belong to the authenticated user")
 	}
 	parsedJWT.AuthType = newAuthLevel
 	return jwt.Signed(signer).Claims(parsedJWT).Serialize()
